@@ -225,6 +225,10 @@ def obligations(tier):
                 obs.append(Obligation(f"C09/R2/{backend}/{ls}x{rs}/{label}", "R2" if backend == "polars" else "R3", f"{label}: every column of both inputs keeps its data and stays referable ({backend})",
                                       make_run(pf, label, fn, backend), functions=fns + [fi(verbs_mod.join)], bounded=f"table widths {ls.w} and {rs.w} (names symbolic)", tags=("cross_backend",),
                                       carveouts={"join_helper_names": "no column is named __INDEX__ or <left column>_right"}))
+    from . import c16
+
+    obs.append(Obligation("C09/R6/self_join_sides", "R6", "aliased self-join: a reference through either table object denotes that side (native)", c16._conc("references through either table object of an aliased self-join denote that side", c16.x5b_check),
+                          functions=[fi(verbs_mod.join), fi(H.verbs_tree.Join._clone) if hasattr(H, "verbs_tree") else fi(verbs_mod.join)], bounded="4 concrete self-join shapes x 2 backends (native execution against a hand-computed expectation)"))
     return obs
 
 
